@@ -308,6 +308,7 @@ void ICACHE_FLASH_ATTR
 supla_esp_update_recv_cb (void *arg, char *pdata, unsigned short len) {
 
 	int a;
+	unsigned short body_offset = 0; // offset of the first body byte in pdata
 
 	if ( len == 0 )
 		return;
@@ -332,6 +333,7 @@ supla_esp_update_recv_cb (void *arg, char *pdata, unsigned short len) {
 
 			update->http_header_data[update->http_header_data_len] = pdata[a];
 			update->http_header_data_len++;
+			body_offset = a+1;
 
 			if ( update->http_header_data_len > 3
 				 && update->http_header_data[update->http_header_data_len-1] == '\n'
@@ -425,7 +427,7 @@ supla_esp_update_recv_cb (void *arg, char *pdata, unsigned short len) {
 
 		//supla_log(LOG_DEBUG, "FUPDT_STEP_DOWNLOADING, %i, %i", update->downloaded_data_size, update->expected_file_size);
 
-		supal_esp_update_download(&pdata[update->http_header_data_len], len-update->http_header_data_len);
+		supal_esp_update_download(&pdata[body_offset], len-body_offset);
 		update->http_header_data_len=0;
 
 		if ( update->downloaded_data_size == update->expected_file_size ) {
